@@ -14,7 +14,7 @@ import random
 
 from statham.schema.constants import NotPassed
 
-from sim import gen, sched
+from sim import common, gen, sched
 from sim.common import gen_perm, install_validator_order, HarnessError
 from sim.world import (
     abort_site,
@@ -441,18 +441,32 @@ def _opcode_tier():
 # --------------------------------------------------------------------------
 
 
-def exec_case(case, log, stats):
-    world = case["world"]
-    install_validator_order(case.get("perm"))
-    # sequential reference: every call alone on its own fresh build
-    reference = []
-    for calls in case["threads"]:
-        ref_calls = []
+def reference_outcomes(world, threads, perm):
+    install_validator_order(perm)
+    out = []
+    for calls in threads:
+        row = []
         for call in calls:
             fresh = build(world)
             verdict, result, _ = attempt(live_resolve(fresh, call["path"]), _value(call["arg"]))
-            ref_calls.append((verdict, norm(result) if verdict == "accept" else None))
-        reference.append(ref_calls)
+            row.append([verdict, norm(result) if verdict == "accept" else None])
+        out.append(row)
+    return out
+
+
+def exec_case(case, log, stats):
+    world = case["world"]
+    install_validator_order(case.get("perm"))
+    # sequential reference: every call alone on its own fresh build - computed
+    # in *another* pristine process, so that in this one the threads are the
+    # very first to validate anything (first use in a process is part of the
+    # space: lazily imported or initialised helpers)
+    reference = [
+        [tuple(item) for item in row]
+        for row in common.pristine(
+            "sim.c14", "reference_outcomes", world, case["threads"], case.get("perm")
+        )
+    ]
     # The shared tree must be *cold* when the threads start (first-use paths
     # under concurrency are part of the space), so the "before" observation is
     # taken from two other builds of the same world, never from `built`.
